@@ -18,6 +18,11 @@ CHECKS = {
    text="Every multiset of <=k constraints of a dense alphabet (atoms, types, predeclared ranges, all comparison operators x boundary constants, !=null, regexps) is unified with every atom of the alphabet by the real evaluator; acceptance, the resulting atom, bottom-only-if-unsatisfiable and pinned-atom correctness are compared with the model for every pair.",
    note="Trusts the 150-line model in src/model/scalar.go. Large magnitudes are not in the alphabet (C06 covers number exactness).",
    ref="DESIGN.md §3 C03"),
+ "C04": dict(engine="enum",
+   technique="bounded-exhaustive enumeration of disjunction/default expressions on the real evaluator against an executable model of the spec's value-default pair rules",
+   text="Every expression of the bounded families (disjunctions of width 2-3 with every un-nested mark pattern over 11 leaves, unified with leaves and with other disjunctions, disjunctions of conjunctions, nested unmarked disjunctions carrying defaults) is evaluated by the real evaluator; acceptance of 14 probe values and the resolved default (unique / fallback / ambiguity must be incomplete) are compared with a model of rules U0-U2, D0-D2, M0-M1 plus the spec's elimination sentence.",
+   note="Trusts src/model/disj.go. Nested marks (M2/M3) excluded as the property states. One known finding (collapsed marked disjunction loses its default) listed in known_findings.jsonl.",
+   ref="DESIGN.md §3 C04"),
  "C09": dict(engine="enum",
    technique="bounded-exhaustive enumeration of token strings / strings x quoting forms / literal spellings on the real scanner, parser and literal package (explicit-state, no sampling)",
    text="Every token string up to the length bound, every string over a hostile rune alphabet under every quoting form and every literal-candidate spelling up to the bound is executed on the real code and checked against position invariants, Unquote(Quote(s))==s and three-way validity agreement. Exhaustive within the stated alphabet/bound; says nothing beyond it.",
